@@ -50,10 +50,11 @@ func c19Scripts() [][]c19Res {
 	pv := c19Res{[]c19Out{}, "nil", "value"}
 	pe := c19Res{[]c19Out{}, "nil", "error"}
 	pn := c19Res{[]c19Out{}, "nil", "nil"}
+	ps := c19Res{[]c19Out{}, "nil", "slice"} // a panic value of a type that == cannot compare
 	ce := c19Res{[]c19Out{}, "ce", "none"}
 	return [][]c19Res{
 		{ce, ok1}, {ce, ce, ok2}, {ce},
-		{ok0}, {ok1}, {ok2}, {e1o, ok1}, {e1}, {we1, ok0}, {e2, e2, ok2}, {e2}, {pv}, {pe}, {pn}, {e1, pv}, {e1, e2, e1o, ok2},
+		{ok0}, {ok1}, {ok2}, {e1o, ok1}, {e1}, {we1, ok0}, {e2, e2, ok2}, {e2}, {pv}, {pe}, {pn}, {ps}, {e1, pv}, {e1, e2, e1o, ok2},
 	}
 }
 
@@ -261,6 +262,10 @@ func c19PanicKind(v any) string {
 		return "nil"
 	case *runtime.PanicNilError:
 		return "nil"
+	case []string:
+		if len(x) == 3 && x[0] == "scripted" && x[2] == "value" {
+			return "slice"
+		}
 	case string:
 		if x == "scripted panic value" {
 			return "value"
@@ -317,6 +322,8 @@ func c19Run(r *tr.Run, cs c19Case) {
 			panic(c19E2)
 		case "nil":
 			panic(nil)
+		case "slice":
+			panic([]string{"scripted", "panic", "value"})
 		}
 		var outs []*message.Message
 		for _, o := range res.Outs {
